@@ -63,6 +63,9 @@ class DatagramListenerSocketAdapter(transports.AsyncDatagramListener[tuple[Any, 
         # To bypass this side effect, we use our own flag.
         self.__closing: bool = False
 
+        # Disable in-memory byte buffering.
+        transport.set_write_buffer_limits(0)
+
         self.__extra_attributes = MappingProxyType(socket_tools._get_socket_extra(socket, wrap_in_proxy=False))
 
     def __del__(self, *, _warn: _utils.WarnCallback = warnings.warn) -> None:
